@@ -95,6 +95,16 @@ func (cx *Ctx) runOp(rule string, spec opSpec) *opRun {
 		parts := strings.Split(k, ".")
 		if f := cx.P.Func("", parts[0], parts[1]); f != nil {
 			ps.asEvents[origin(f)] = kind
+		} else if kind == "StartCall" {
+			// the get-or-create step of the in-flight table may have been split by record kind: resolve it by role
+			fs := startCallRoles(cx)
+			for _, rf := range fs {
+				ps.asEvents[origin(rf.fn)] = kind
+				ps.eventExtra[origin(rf.fn)] = []string{rf.kind}
+			}
+			if len(fs) == 0 {
+				cx.R.Undecided(rule, k, "anchor", "-", "summarised callee "+k+" does not resolve")
+			}
 		} else {
 			cx.R.Undecided(rule, k, "anchor", "-", "summarised callee "+k+" does not resolve")
 		}
@@ -344,4 +354,49 @@ func (cx *Ctx) consts(rule string) progConsts {
 	pc.writeOp = get("WriteOp")
 	pc.invalidateOp = get("InvalidateOp")
 	return pc
+}
+
+// startCallRoles: the functions that play startCall's role - methods of group that return (*call, bool) and create the
+// record with newCall inside a computation on the in-flight table. kind is the record kind they create when it is a
+// constant ("true" = refresh, "false" = load), "" when it is a parameter (the original two-argument form).
+type startRole struct {
+	fn   *ssa.Function
+	kind string
+}
+
+func startCallRoles(cx *Ctx) []startRole {
+	if f := cx.P.Func("", "group", "startCall"); f != nil {
+		return []startRole{{f, ""}}
+	}
+	newCall := cx.P.Func("", "", "newCall")
+	callsF := cx.P.Field("", "group", "calls")
+	compute := cx.P.Func(hmPkg, "Map", "Compute")
+	if newCall == nil || callsF == nil || compute == nil {
+		return nil
+	}
+	var out []startRole
+	for _, f := range cx.P.FuncsOfPkg("") {
+		if f.Parent() != nil || f.Signature.Recv() == nil || namedTypeName(f.Signature.Recv().Type()) != "group" || f.Signature.Results().Len() != 2 {
+			continue
+		}
+		computes, kind, creates := false, "", false
+		withClosures(f, func(g *ssa.Function) {
+			allInstrs(g, func(in ssa.Instruction) {
+				if isCallTo(in, compute) && sameField(recvField(in), callsF) {
+					computes = true
+				}
+				if isCallTo(in, newCall) {
+					creates = true
+					a := callArgs(in)
+					if b, ok := constBool(a[len(a)-1]); ok {
+						kind = fmt.Sprint(b)
+					}
+				}
+			})
+		})
+		if computes && creates {
+			out = append(out, startRole{f, kind})
+		}
+	}
+	return out
 }
